@@ -63,12 +63,13 @@ def model_classes():
         'rxonly': ({CNOTGate(), RXGate()}, 'line', 0),
         'u1rx': ({CNOTGate(), U1Gate(), RXGate()}, 'line', 0),
         'u1sx': ({CNOTGate(), U1Gate(), SXGate()}, 'line', 0),
+        'rzrx': ({CNOTGate(), RZGate(), RXGate()}, 'line', 0),
         'rzry': ({CNOTGate(), RZGate(), RYGate()}, 'line', 0),   # vendor-like: no general gate, no SX / RX
         'h1like': ({CNOTGate(), RZGate(), U1qPiGate, U1qPi2Gate}, 'line', 0),   # Quantinuum-like single-qudit gates
     }
 
 
-ZX_CLASSES = ('rzonly', 'rxonly', 'u1rx', 'u1sx', 'rzry', 'h1like')
+ZX_CLASSES = ('rzonly', 'rxonly', 'u1rx', 'u1sx', 'rzrx', 'rzry', 'h1like')
 
 
 def configs():
